@@ -19,7 +19,7 @@ RULE = (
     "occurring in >=2 contests or twice in one contest. distinct = distinct canonical JSON of the case."
 )
 ASSUMPTIONS = [
-    "record flags are Python bools and tally_pool is None or a string, as every constructor in the library produces",
+    "record flags are Python bools; tally_pool is None (not set) or a label (string or integer, possibly falsy: 0, '')",
     "RAIRE rankings are duplicate-free lists of declared candidates (documented format)",
     "the count returned next to the merged list by from_raire is not part of the property and is not judged",
 ]
@@ -48,7 +48,8 @@ def _votes():
 
 def strategy(shard):
     if shard["kind"] == "merge":
-        tp = st.sampled_from([None, None, "p1", "p1", "p2"] if not shard.get("conflict_bias") else [None, "p1", "p2", "p3"])
+        # batch labels are arbitrary objects; 0 and '' are labels, only None means "not set"
+        tp = st.sampled_from([None, None, "p1", "p1", "p2", 0, ""] if not shard.get("conflict_bias") else [None, "p1", "p2", 0, ""])
         rec = st.fixed_dictionaries(
             {"id": st.sampled_from(IDS), "votes": _votes(), "phantom": st.booleans(), "pool": st.booleans(), "tally_pool": tp,
              # how the caller holds the votes: its own dict, one template dict shared by all such records (votes ignored,
